@@ -132,7 +132,8 @@ class Environment:
             )
 
     def remove(self, name):
-        del self.map[name]
+        # an inner loop over the same variable has already removed it
+        self.map.pop(name, None)
 
     def newEnv(self):
         return Environment(self)
